@@ -32,6 +32,10 @@ package asa
 //vc:  set accepted = accepted + 1
 //vc:  ensures[C09] @everyReplyConsumed pendingReplies == old(pendingReplies)
 //vc:  ensures[C09] accepted == old(accepted) + 1
+// C14: a joined command ("no OLD\nNEW": moved ACL line, replaced route) reaches
+// the device as one packet; the add is on its way before the reply to the
+// delete is judged
+//vc:  assert[C14,C01] at "s.Conn.Send("#* @joinedCommandsInOnePacket arg1 == cmd
 
 //vc:func (*State).checkDeviceName
 //vc:  requires[C11] @notInConfMode !confMode
